@@ -418,8 +418,20 @@ fn eval_case_inner(line: &str) -> String {
             let b = bytes_of_hex(t[1]);
             match guarded(|| Frame::from_bytes(&b)) {
                 None => "PANIC".to_string(),
-                Some(Ok(f)) => format!("OK {}", str_frame(&f)),
-                Some(Err(e)) => str_ferr(&e),
+                // describing the outcome (Display and Debug of the frame, of the message it stands for, of the error) is
+                // part of handling it: that must not panic either
+                Some(Ok(f)) => match guarded(|| {
+                    let _ = (format!("{}", f), format!("{:?}", f));
+                    let m = Message::from(f.clone());
+                    let _ = (format!("{}", m), format!("{:?}", m));
+                }) {
+                    Some(()) => format!("OK {}", str_frame(&f)),
+                    None => "PANIC-WHILE-DESCRIBING".to_string(),
+                },
+                Some(Err(e)) => match guarded(|| (e.to_string(), format!("{:?}", e))) {
+                    Some(_) => str_ferr(&e),
+                    None => "PANIC-WHILE-DESCRIBING".to_string(),
+                },
             }
         }
         "F2M" | "F2MB" => {
@@ -1113,7 +1125,35 @@ fn eval_pg(t: &[&str]) -> String {
                     }
                     all_ok
                 };
-                q == page && page == q && h1.finish() == h2.finish() && page.clone() == page && independent && clone_from_ok
+                // the picture Display draws (one character per pixel inside a border) is the picture get_pixel reports:
+                // whichever two characters are used, a pixel's character depends on its value and on nothing else
+                let display_ok = {
+                    let (w, h) = (page.width() as usize, page.height() as usize);
+                    let text = format!("{}", page);
+                    let _ = format!("{:?}", page);
+                    if w * h > 40_000 {
+                        true
+                    } else {
+                        let lines: Vec<Vec<char>> = text.lines().map(|l| l.chars().collect()).collect();
+                        let mut ok = lines.len() == h + 2 && lines.iter().all(|l| l.len() == w + 2);
+                        let (mut on_char, mut off_char): (Option<char>, Option<char>) = (None, None);
+                        if ok {
+                            for y in 0..h {
+                                for x in 0..w {
+                                    let c = lines[y + 1][x + 1];
+                                    let slot = if page.get_pixel(x as u32, y as u32) { &mut on_char } else { &mut off_char };
+                                    match slot {
+                                        None => *slot = Some(c),
+                                        Some(k) => ok &= *k == c,
+                                    }
+                                }
+                            }
+                            ok &= on_char.is_none() || on_char != off_char;
+                        }
+                        ok
+                    }
+                };
+                q == page && page == q && h1.finish() == h2.finish() && page.clone() == page && independent && clone_from_ok && display_ok
             }
             Err(_) => false,
         }
